@@ -41,7 +41,10 @@ func (s *scen) emit(e ev) {
 }
 
 // buildTorrent makes a torrent whose info dictionary spans nb metadata blocks (many empty files with long names).
-func buildTorrent(nb int, priv bool, seed int64) *vh.Torrent {
+func buildTorrent(nb int, priv bool, seed int64, lay int) *vh.Torrent {
+	if lay == 1 {
+		return buildPiecesTorrent(nb, priv, seed)
+	}
 	target := (nb-1)*bs + 3000 + int(seed%7)*911
 	files := []vh.FileSpec{{Path: []string{"data.bin"}, Length: 40000}}
 	var tor *vh.Torrent
@@ -59,6 +62,41 @@ func buildTorrent(nb int, priv bool, seed int64) *vh.Torrent {
 	return tor
 }
 
+// buildPiecesTorrent makes a single-file info dictionary whose size is dominated by the "pieces" string: every metadata
+// block but the first (header) and the last (tail) lies inside that string, so blocks can trade places and the
+// dictionary still parses.  No content is needed: the scenarios stop after the metadata.
+func buildPiecesTorrent(nb int, priv bool, seed int64) *vh.Torrent {
+	target := (nb-1)*bs + 700 + int(seed%7)*120
+	np := (target - 120) / 20
+	if np < 1 {
+		np = 1
+	}
+	rng := rand.New(rand.NewSource(seed ^ 0x5eed))
+	pieces := make([]byte, 20*np)
+	rng.Read(pieces)
+	name := fmt.Sprintf("c13p-%d-%d", nb, seed)
+	info := vh.Dict{"name": name, "piece length": 16384, "pieces": pieces, "length": int64(np) * 16384}
+	if priv {
+		info["private"] = 1
+	}
+	t := &vh.Torrent{Layout: vh.Layout{Name: name, PieceLen: 16384}}
+	t.InfoBytes = vh.Enc(info)
+	t.InfoHash = sha1.Sum(t.InfoBytes)
+	t.NumPieces = np
+	t.SingleFile = true
+	return t
+}
+
+// swapPair returns the two block indexes a "swap" liar exchanges: the last two full-size blocks (ok = false when the
+// metadata has fewer than two full-size blocks).
+func swapPair(size int) (a, b int, ok bool) {
+	full := size / bs
+	if full < 2 {
+		return 0, 0, false
+	}
+	return full - 2, full - 1, true
+}
+
 type speer struct {
 	s       *scen
 	p       int // 1-based
@@ -71,6 +109,74 @@ type speer struct {
 	gone    bool
 	sawReq  bool
 	selfEnd bool
+	queue   []int // honest with ord = 1 / swap: requests waiting to be answered in another order
+	queueAt time.Time
+}
+
+func (pe *speer) enqueue(i int) {
+	if len(pe.queue) == 0 {
+		pe.queueAt = time.Now()
+	}
+	pe.queue = append(pe.queue, i)
+}
+
+// data sends a data message of an "honest" or "swap" peer and records it (PeerData: Trace_Metadata checks the premise).
+func (pe *speer) data(label, payload int) {
+	blk := pe.block(payload)
+	cls := "good"
+	if label != payload {
+		cls = "moved"
+	}
+	pe.s.emit(ev{"op": "PeerData", "p": pe.p, "i": label, "len": len(blk), "cls": cls})
+	pe.sendData(label, blk, len(pe.s.tor.InfoBytes), true)
+}
+
+// flush answers the queued requests of an order-changing peer.
+//
+//	honest, ord = 1: every queued request, highest index first;
+//	swap: once both indexes of the pair are queued, the genuine payloads in the genuine order with the two labels
+//	exchanged (payload a under index b, payload b under index a), the other queued requests in index order around them.
+func (pe *speer) flush(force bool) {
+	if len(pe.queue) == 0 {
+		return
+	}
+	q := append([]int(nil), pe.queue...)
+	for i := 1; i < len(q); i++ { // insertion sort, ascending
+		for j := i; j > 0 && q[j-1] > q[j]; j-- {
+			q[j-1], q[j] = q[j], q[j-1]
+		}
+	}
+	if pe.pol == "honest" {
+		for k := len(q) - 1; k >= 0; k-- {
+			pe.data(q[k], q[k])
+		}
+		pe.queue = nil
+		return
+	}
+	a, b, ok := swapPair(len(pe.buf))
+	has := func(x int) bool {
+		for _, v := range q {
+			if v == x {
+				return true
+			}
+		}
+		return false
+	}
+	if ok && !(has(a) && has(b)) && !force {
+		return // wait for the second index of the pair
+	}
+	sw := ok && has(a) && has(b)
+	for _, i := range q { // ascending = genuine payload order
+		switch {
+		case sw && i == a:
+			pe.data(b, a)
+		case sw && i == b:
+			pe.data(a, b)
+		default:
+			pe.data(i, i)
+		}
+	}
+	pe.queue = nil
 }
 
 func garbageOf(b []byte) []byte {
@@ -113,7 +219,25 @@ func (pe *speer) act(i int) {
 	blk := pe.block(i)
 	switch pe.pol {
 	case "honest":
-		pe.sendData(i, blk, T, true)
+		if blk == nil { // a request outside the layout (never seen; an honest peer rejects it)
+			pe.c.Send(vh.Msg{ID: vh.MsgExtended, ExtID: pe.utID, Data: vh.Enc(vh.Dict{"msg_type": 2, "piece": i})})
+			break
+		}
+		if pe.s.c.Ord == 1 {
+			pe.enqueue(i)
+			if len(pe.queue) >= (len(pe.buf)+bs-1)/bs {
+				pe.flush(true)
+			}
+			break
+		}
+		pe.data(i, i)
+	case "swap":
+		if blk == nil {
+			pe.c.Send(vh.Msg{ID: vh.MsgExtended, ExtID: pe.utID, Data: vh.Enc(vh.Dict{"msg_type": 2, "piece": i})})
+			break
+		}
+		pe.enqueue(i)
+		pe.flush(false)
 	case "total":
 		pe.sendData(i, blk, T+7, i%2 == 0)
 	case "sizeplus", "sizeminus", "over", "capmax", "forge", "huge", "neg":
@@ -170,7 +294,7 @@ func (pe *speer) run(addr string, ih [20]byte) {
 	case "sizeminus":
 		pe.adv, pe.buf = T-1, truth[:T-1]
 	case "forge": // a well-formed info dictionary of another torrent, served consistently
-		other := buildTorrent(s.c.Nb, false, int64(s.idx)*7919+int64(pe.p)+424242)
+		other := buildTorrent(s.c.Nb, false, int64(s.idx)*7919+int64(pe.p)+424242, s.c.Lay)
 		pe.adv, pe.buf = len(other.InfoBytes), other.InfoBytes
 	case "over":
 		pe.adv = e2eMaxMeta + 1
@@ -225,8 +349,14 @@ func (pe *speer) run(addr string, ih [20]byte) {
 			msgs <- m
 		}
 	}()
+	tick := time.NewTicker(50 * time.Millisecond)
+	defer tick.Stop()
 	for {
 		select {
+		case <-tick.C: // requests that wait for company are answered after 300 ms at the latest (below the snub timeout)
+			if len(pe.queue) > 0 && time.Since(pe.queueAt) > 300*time.Millisecond && !pe.selfEnd {
+				pe.flush(true)
+			}
 		case <-relC:
 			relC = nil
 			released = true
@@ -291,13 +421,15 @@ func (pe *speer) run(addr string, ih [20]byte) {
 
 func (s *scen) run(seed int64) {
 	c := s.c
-	s.tor = buildTorrent(c.Nb, c.Priv == 1, seed*1000+int64(s.idx))
+	s.tor = buildTorrent(c.Nb, c.Priv == 1, seed*1000+int64(s.idx), c.Lay)
 	T := len(s.tor.InfoBytes)
 	pol := make([]string, len(c.Pols))
 	for i, p := range c.Pols {
 		pol[i] = p
 	}
-	s.emit(initLine("e2e", len(c.Pols), T, e2eMaxMeta, c.Par, 0, pol, c.Priv == 1))
+	il := initLine("e2e", len(c.Pols), T, e2eMaxMeta, c.Par, 0, pol, c.Priv == 1)
+	il["ord"], il["lay"] = c.Ord, c.Lay
+	s.emit(il)
 	fail := func(what string) {
 		s.emit(ev{"op": "Note", "what": what})
 		s.mu.Lock()
